@@ -20,6 +20,17 @@ def handle (tb : Tables) (c impl : T) : String :=
      | some true => if impl == T.node "obs" [T.ofBool false, T.ofBool true] then "ok" else "mismatch spec-bad (obs false true)"
      | some false => if impl == T.node "obs" [T.ofBool true, T.ofBool false] then "ok" else "mismatch spec-bad (obs true false)"
      | none => "bad-op")
+  | .node "c10l" [_, nerr] =>
+    -- an undeclared / missing argument on every member of a list and on each member type of a union (fixed table);
+    -- obs: (obs forbiddenCalls errors).  The model is the property: no resolver invoked with the offending
+    -- selection, one error per member.  With the argument check made at the first use of a field only (D93) the
+    -- later members are resolved.
+    (match impl with
+     | .node "obs" [bad, n] =>
+       if bad == T.ofInt 0 && n == nerr then "ok"
+       else if tb.argsSortedOnce then "dev D93"
+       else "mismatch spec-bad " ++ (T.node "obs" [T.ofInt 0, nerr]).render
+     | _ => "bad-op")
   | .node "c10" [.atom kind, w] =>
     match decCase w with
     | none => "bad-op"
@@ -55,6 +66,6 @@ def handle (tb : Tables) (c impl : T) : String :=
         else "mismatch " ++ (if specOk then "spec-ok " else "spec-bad ") ++ cur.render
   | _ => "bad-op"
 
-def flags (tb : Tables) : List (String × Bool) := [("D23", (cfgCur tb).argCountCheckOnly), ("D69", d69)]
+def flags (tb : Tables) : List (String × Bool) := [("D23", (cfgCur tb).argCountCheckOnly), ("D69", d69), ("D93", tb.argsSortedOnce)]
 
 end Ggql.Driver.C10
